@@ -237,7 +237,8 @@ impl Iterator for TokenIterator {
             }
         }
         
-        if buffer.len() > 0 {
+        if buffer.len() > 0 || status == StringNormal || status == StringEscape || status == Character {
+            // also an opened string or a lone `%` is the beginning of a valid token
             Some(Err(ReadError::Incomplete))
         }
         else {
@@ -456,7 +457,8 @@ fn read_internal(mem: &mut Memory, input: GcRef, location: Location) -> Result<(
         }
     }
 
-    if stack.len() > 0 {
+    if stack.len() > 0 || quoted {
+        // also a quote with nothing after it is the beginning of a valid form
         Err(ReadError::Incomplete)
     }
     else {
